@@ -216,7 +216,7 @@ end CI
 
 /-! ### the answer as a sorted set -/
 
-theorem insertSorted_of_mem (x : Nat) : ∀ l : List Nat, StrictAsc l → x ∈ l → insertSorted x l = l
+theorem cd_insertSorted_of_mem (x : Nat) : ∀ l : List Nat, StrictAsc l → x ∈ l → insertSorted x l = l
   | [], _, h => by cases h
   | y :: ys, hs, h => by
     have hy := List.pairwise_cons.mp hs
@@ -227,7 +227,7 @@ theorem insertSorted_of_mem (x : Nat) : ∀ l : List Nat, StrictAsc l → x ∈ 
       have h1 : ¬x < y := by omega
       have h2 : ¬x = y := by omega
       simp only [h1, h2, if_false]
-      rw [insertSorted_of_mem x ys hy.2 h]
+      rw [cd_insertSorted_of_mem x ys hy.2 h]
 
 /-- skipping a target resolved before changes nothing: its webentity is in the set already -/
 theorem ciStep_fold (s : State) : ∀ (L : List Nat) (db ws : List Nat), StrictAsc ws → (∀ t ∈ db, s.windupWe t ∈ ws) →
@@ -240,7 +240,7 @@ theorem ciStep_fold (s : State) : ∀ (L : List Nat) (db ws : List Nat), StrictA
     simp only [List.foldl_cons, List.map_cons]
     by_cases hd : t ∈ db
     · have : ciStep s (db, ws) t = (db, ws) := by simp [ciStep, hd]
-      rw [this, insertSorted_of_mem _ ws hs (hdb t hd)]
+      rw [this, cd_insertSorted_of_mem _ ws hs (hdb t hd)]
       exact ih db ws hs hdb
     · have : ciStep s (db, ws) t = (db ++ [t], insertSorted (s.windupWe t) ws) := by simp [ciStep, hd]
       rw [this]
@@ -273,7 +273,7 @@ theorem cited_drain (s : State) (ps : List Bytes) (out : Bool) (hwf : LinksWf s)
       (fun n p => (s.weDfs n p none).flatMap (fun bl =>
         (fun it : QItem => (ciTargets s out it).map s.windupWe) (itemOf s bl))) := by
     funext n p
-    rw [filter_flatMap_if]
+    rw [cd_filter_flatMap_if]
     congr 1
     funext bl
     simp only [ciTargets, ciHead, itemOf]
